@@ -218,6 +218,61 @@ view_r(struct sbuf *b, const struct lyd_node *n, int depth)
     return any;
 }
 
+/* ---- JSON printer view: ALL nodes as the printer walks them, with lyd_node_should_print() under the given options --------- */
+static const void *jv_sids[4096];
+static int jv_nsid;
+
+static int
+jv_sid(const void *p)
+{
+    int i;
+    for (i = 0; i < jv_nsid; i++) if (jv_sids[i] == p) return i;
+    if (jv_nsid < 4096) jv_sids[jv_nsid++] = p;
+    return jv_nsid - 1;
+}
+
+static int
+jv_basetype(const struct lyd_value *v)
+{
+    while (v->realtype->basetype == LY_TYPE_UNION) v = &v->subvalue->value;
+    return v->realtype->basetype;
+}
+
+static int
+jview_r(struct sbuf *b, const struct lyd_node *n, int depth, uint32_t opts)
+{
+    const struct lyd_meta *m;
+
+    for (; n; n = n->next) {
+        const char *kind;
+        if (!n->schema) return 0;
+        switch (n->schema->nodetype) {
+        case LYS_CONTAINER: kind = "cont"; break;
+        case LYS_LIST: kind = "list"; break;
+        case LYS_LEAF: kind = "leaf"; break;
+        case LYS_LEAFLIST: kind = "leaflist"; break;
+        default: return 0;          /* anydata, operations: outside the model's fragment */
+        }
+        sb_printf(b, "%d %s %d %s %s %d ", depth, kind, jv_sid(n->schema), n->schema->module->name, n->schema->name,
+                lyd_node_should_print(n, opts) ? 1 : 0);
+        if (n->schema->nodetype & LYD_NODE_TERM) {
+            const struct lyd_node_term *t = (const struct lyd_node_term *)n;
+            sb_printf(b, "%d ", jv_basetype(&t->value));
+            sb_hex(b, lyd_get_value(n));
+        } else {
+            sb_printf(b, "0 -");
+        }
+        for (m = n->meta; m; m = m->next) {
+            if (!lyd_metadata_should_print(m)) continue;
+            sb_printf(b, " %s,%s,%d,", m->annotation->module->name, m->name, jv_basetype(&m->value));
+            sb_hex(b, lyd_get_meta_value(m));
+        }
+        sb_printf(b, "\n");
+        if ((n->schema->nodetype & LYD_NODE_INNER) && !jview_r(b, lyd_child(n), depth + 1, opts)) return 0;
+    }
+    return 1;
+}
+
 static char *
 print_mem(const struct lyd_node *t, LYD_FORMAT f, uint32_t opts)
 {
@@ -335,6 +390,26 @@ main(void)
                 vp_field_hex(x ? x : "", x ? strlen(x) : 0); vp_field_hex(j ? j : "", j ? strlen(j) : 0); vp_end();
             }
             ly_in_free(in, 0); lyd_free_all(t); free(x); free(j); free(d);
+        } else if (!strcmp(op, "jview") && r.ntok == 6 && ctx) {
+            /* jview <xml|json> <data-hex> <wd 0..2>: JSON output under explicit/trim/all (shrink) + the printer's view of the tree */
+            LYD_FORMAT fin = !strcmp(r.tok[3], "xml") ? LYD_XML : LYD_JSON;
+            uint32_t wd = WD[atoi(r.tok[5]) % 3];
+            char *d = vp_unhex(r.tok[4], NULL), *j = NULL;
+            struct lyd_node *t = NULL;
+            struct sbuf vb = {0};
+
+            if (lyd_parse_data_mem(ctx, d, fin, LYD_PARSE_STRICT, LYD_VALIDATE_PRESENT, &t) || lyd_validate_all(&t, ctx, 0, NULL)) {
+                vp_reply(id, "err Parse");
+            } else {
+                jv_nsid = 0;
+                j = print_mem(t, LYD_JSON, LYD_PRINT_WITHSIBLINGS | wd | LYD_PRINT_SHRINK);
+                if (!jview_r(&vb, t, 0, wd)) {
+                    vp_reply(id, "err Unsupported");
+                } else {
+                    vp_begin(id, "ok"); vp_field_hex(j ? j : "", j ? strlen(j) : 0); vp_field_hex(vb.s ? vb.s : "", vb.len); vp_end();
+                }
+            }
+            free(j); free(vb.s); lyd_free_all(t); free(d);
         } else if (!strcmp(op, "leakcheck")) {
             vp_reply(id, "ok %d", VP_LEAKCHECK() ? 1 : 0);
         } else if (!strcmp(op, "cross") && r.ntok == 5 && ctx) {
